@@ -346,11 +346,33 @@ Proof.
   destruct (in_dec key_eq_dec k (keys old)), (in_dec key_eq_dec k (keys new)); tauto.
 Qed.
 
+(* the reverse update on an index where the forward update applied only part of its inserts (any subset S of the new
+   keys: none sequentially, a prefix of the loop under a racing writer) and none of its removals restores it *)
+Lemma compensate_restores u p p' id old new (S : list key) :
+  compat old new -> owns p id (keys old) ->
+  (forall k id', In id' (p' k) <-> In id' (p k) \/ (id' = id /\ In k S)) ->
+  (forall k, In k S -> In k (keys new)) ->
+  snd (ix_update true u p' id new old) = true /\ peq p (fst (ix_update true u p' id new old)).
+Proof.
+  intros C O HS Sub.
+  destruct (ix_update true u p' id new old) as [p2 ok] eqn:B. simpl.
+  assert (ok = true).
+  { destruct ok; auto. exfalso.
+    pose proof (ix_update_fail_iff u p' id new old (compat_sym _ _ C)) as X. rewrite B in X. simpl in X.
+    destruct X as [X _]. destruct (X eq_refl) as (k & K1 & K2 & K3).
+    apply conflict_spec in K3. destruct K3 as (_ & Hn & _). apply Hn. apply HS. left. apply O. auto. }
+  subst ok. split; auto.
+  pose proof (ix_update_ok _ _ _ _ _ _ (compat_sym _ _ C) B) as [_ B2].
+  intros k id'. rewrite B2, HS. pose proof (O k) as Ok. pose proof (Sub k) as Sk.
+  destruct (Z.eq_dec id' id) as [->|N]; [|tauto].
+  destruct (in_dec key_eq_dec k (keys old)), (in_dec key_eq_dec k (keys new)), (in_dec key_eq_dec k S); tauto.
+Qed.
+
 Lemma upd_loop_spec sch fs id od nd :
   set_fields sch od fs = inl nd ->
   forall ixs l ok,
   Forall (upd_pre id od nd) ixs ->
-  upd_loop true id (map fst fs) od nd ixs = (l, ok) ->
+  upd_loop true true id (map fst fs) od nd ixs = (l, ok) ->
   (exists ixs2, upd_rollback true id od nd l = (ixs2, true) /\ ixs_eq ixs ixs2) /\
   (ok = true ->
      Forall2 (fun x y => fst x = fst y /\
@@ -368,7 +390,7 @@ Proof.
     + unfold uniq_of in E.
       destruct (ix_update true (ix_unique ix) p id (hook_or_null ix od) (hook_or_null ix nd)) as [p' okU] eqn:EU.
       destruct okU.
-      * destruct (upd_loop true id (map fst fs) od nd rest) as [r ok2] eqn:Er. inversion E; subst.
+      * destruct (upd_loop true true id (map fst fs) od nd rest) as [r ok2] eqn:Er. inversion E; subst.
         destruct (IH _ _ Fr eq_refl) as ((ixs2 & I1 & I1') & I2 & I3).
         destruct (rollback_one _ _ _ _ _ _ Cp Uq Own EU) as (p2 & RB & PE).
         pose proof (ix_update_ok _ _ _ _ _ _ Cp EU) as [U1 U2].
@@ -391,14 +413,16 @@ Proof.
               ** symmetry; auto.
         -- intros H. apply Exists_cons_tl. auto.
       * inversion E; subst. pose proof (ix_update_fail _ _ _ _ _ _ Cp EU) as ->.
+        destruct (compensate_restores (ix_unique ix) p p id _ _ [] Cp Own) as [_ CR];
+          [intros; simpl; tauto | intros k [] |].
         repeat split; try discriminate.
         -- simpl. assert (Z : forall r, upd_rollback true id od nd (map (fun e : index * post1 => (e, false)) r) = (r, true)).
            { induction r as [|[ix' q] r IHr]; simpl; auto. rewrite IHr. auto. }
-           rewrite Z. exists ((ix, p) :: rest). split; auto. apply ixs_eq_refl.
+           rewrite Z. eexists. split; [reflexivity|]. constructor; [split; [reflexivity | exact CR] | apply ixs_eq_refl].
         -- intros _. apply Exists_cons_hd. simpl.
            pose proof (ix_update_fail_iff (ix_unique ix) p id _ _ Cp) as X. rewrite EU in X. simpl in X.
            apply X. auto.
-    + destruct (upd_loop true id (map fst fs) od nd rest) as [r ok0] eqn:Er. inversion E; subst.
+    + destruct (upd_loop true true id (map fst fs) od nd rest) as [r ok0] eqn:Er. inversion E; subst.
       destruct (IH _ _ Fr eq_refl) as ((ixs2 & I1 & I1') & I2 & I3).
       pose proof (hook_untouched _ _ _ _ _ SF T) as HU.
       repeat split.
@@ -441,7 +465,7 @@ Proof.
 Qed.
 
 Theorem update_correct sch s id fs ft s' r :
-  Inv sch s -> update true sch s id fs ft = (s', r) ->
+  Inv sch s -> update true true sch s id fs ft = (s', r) ->
   Inv sch s' /\
   match r with
   | inr e => obs_eq s s' /\ (e <> EStorage -> st_poison s' = st_poison s)
@@ -459,7 +483,7 @@ Proof.
   destruct fs as [|f0 fs0]; [apply NOOP|]. remember (f0 :: fs0) as fs.
   destruct (set_fields sch od fs) as [nd|e] eqn:SF; [|apply NOOP].
   destruct (validate sch nd) eqn:V; simpl; [|apply NOOP].
-  destruct (upd_loop true id (map fst fs) od nd (st_ix s)) as [l ok] eqn:UL.
+  destruct (upd_loop true true id (map fst fs) od nd (st_ix s)) as [l ok] eqn:UL.
   pose proof (Inv_upd_pre _ _ _ _ _ I G V) as PRE.
   destruct (upd_loop_spec _ _ _ _ _ SF _ _ _ PRE UL) as ((ixs2 & R1 & R1') & R2 & R3).
   rewrite R1.
@@ -572,27 +596,27 @@ Proof.
   - intros id [].
 Qed.
 
-Lemma step_Inv sch s o s' r : Inv sch s -> step true sch s o = (s', r) -> Inv sch s'.
+Lemma step_Inv sch s o s' r : Inv sch s -> step true true sch s o = (s', r) -> Inv sch s'.
 Proof.
   intros I. unfold step. destruct o.
   - destruct (set_fields sch empty_doc fs); [|intros H; inversion H; subst; auto].
     destruct (st_poison s); [intros H; inversion H; subst; auto|].
     destruct (add sch s fs ft) as [s1 r1] eqn:E. intros H; inversion H; subst. destruct (add_correct _ _ _ _ _ _ I E) as [X _]; exact X.
   - destruct (st_poison s); [intros H; inversion H; subst; auto|].
-    destruct (update true sch s id fs ft) as [s1 r1] eqn:E. intros H; inversion H; subst. destruct (update_correct _ _ _ _ _ _ _ I E) as [X _]; exact X.
+    destruct (update true true sch s id fs ft) as [s1 r1] eqn:E. intros H; inversion H; subst. destruct (update_correct _ _ _ _ _ _ _ I E) as [X _]; exact X.
   - destruct (st_poison s); [intros H; inversion H; subst; auto|].
     destruct (remove s id ft) as [s1 r1] eqn:E. intros H; inversion H; subst. destruct (remove_correct _ _ _ _ _ _ I E) as [X _]; exact X.
 Qed.
 
-Lemma run_Inv sch os : forall s, Inv sch s -> Inv sch (fst (run true sch s os)).
+Lemma run_Inv sch os : forall s, Inv sch s -> Inv sch (fst (run true true sch s os)).
 Proof.
   induction os as [|o r IH]; intros s I; simpl; auto.
-  destruct (step true sch s o) as [s1 x] eqn:E. specialize (IH s1 (step_Inv _ _ _ _ _ I E)).
-  destruct (run true sch s1 r); auto.
+  destruct (step true true sch s o) as [s1 x] eqn:E. specialize (IH s1 (step_Inv _ _ _ _ _ I E)).
+  destruct (run true true sch s1 r); auto.
 Qed.
 
 Definition reachable (sch : schema) (ixs : list index) (s : state) : Prop :=
-  exists os, s = fst (run true sch (init ixs) os).
+  exists os, s = fst (run true true sch (init ixs) os).
 
 Lemma reachable_Inv sch ixs s : wf_indexes sch ixs -> reachable sch ixs s -> Inv sch s.
 Proof. intros W [os ->]. apply run_Inv. apply Inv_init. auto. Qed.
